@@ -511,7 +511,9 @@ func runReplayTest(opt runOpts, pkgRel, src string) (string, bool) {
 	return s, strings.Contains(s, "REPLAY-CONFIRMED")
 }
 
-func extraJobsImpl(L *Loaded, id string, opt runOpts) []unitJob { return lawJobs(L, id, opt) }
+func extraJobsImpl(L *Loaded, id string, opt runOpts) []unitJob {
+	return append(lawJobs(L, id, opt), flagJobs(L, id, opt)...)
+}
 
 func modelRune(o *oblOutcome) (int64, bool) {
 	v, ok := o.r.Model["range-rune"]
